@@ -106,6 +106,8 @@ def shard_main(args):
         resource.setrlimit(resource.RLIMIT_AS, (lim, lim))
     except Exception:  # noqa
         pass
+    os.environ["VERIF_SHARD"] = str(shard)
+    os.environ["VERIF_RUN_SEED"] = str(seed)
     out = {"shard": shard, "violations": [], "error": None, "parts": []}
     t0 = time.time()
     try:
